@@ -196,6 +196,29 @@ def act_name(layer):
   return getattr(a, "__name__", type(a).__name__)
 
 
+def expected_limits(limit):
+  """The limit table completed from 'default' as the hyper-model documents:
+  '{"Conv2D":[weight,bias,activation], "RNN":[weight,bias,recurrent,
+  activation], "default": value}' where default replaces missing values.
+  Computed independently of the hyper-model's own bookkeeping."""
+  d = limit.get("default")
+  if d is None:
+    d = 8
+  dl = list(d) if isinstance(d, list) else [d] * 3
+  out = {}
+  for k, v in limit.items():
+    v = list(v) if isinstance(v, list) else v
+    if k in REGISTERED and isinstance(v, list):
+      if k in SEQUENCE and len(v) < 4:
+        # [weight, bias, recurrent, activation] from a 4-element default
+        v = v + dl[len(v):]
+      elif k not in SEQUENCE and len(v) < 3:
+        kb = dl[:2]
+        v = v + kb[len(v):] + [dl[-1]]
+    out[k] = v
+  return out
+
+
 def limit_key(limit, name, cls):
   for pat in limit:
     if re.match(pat, name):
@@ -218,7 +241,7 @@ class Oracle:
 
   def check_trial(self, ref, hm, qm, assign, limit, tag=""):
     ctx, w = self.ctx, self.w
-    lim = hm.limit
+    lim = expected_limits(limit)
     idx = w.get("layer_indexes")
     names_r = [l.name for l in ref.layers]
     names_t = [l.name for l in qm.layers]
@@ -567,17 +590,31 @@ def apply_op(ctx, w, op):
     w.reference_unchanged("after-crashed-build")
   elif k == "ALL":
     # exhaustive walk (in a seeded order) of a small space
-    import itertools
     names = sorted(w.space)
-    combos = list(itertools.product(*[w.space[n] for n in names]))
-    order = sorted(range(len(combos)),
-                   key=lambda i: derive_seed(op["aseed"], i))
+    total = 1
+    for n in names:
+      total *= len(w.space[n])
     cap = int(op.get("cap", 24))
-    for i in order[:cap]:
-      a = dict(zip(names, combos[i]))
+    if total <= 4096:
+      order = sorted(range(total), key=lambda i: derive_seed(op["aseed"], i))
+      picks = order[:cap]
+    else:
+      picks = []
+      j = 0
+      while len(picks) < cap:
+        i = derive_seed(op["aseed"], j) % total
+        j += 1
+        if i not in picks:
+          picks.append(i)
+    for i in picks:
+      a = {}
+      for n in names:      # mixed-radix decode of the assignment index
+        vals = w.space[n]
+        a[n] = vals[i % len(vals)]
+        i //= len(vals)
       w.trial(a, "enumerated", False)
       w.trials.append(a)
-    if len(combos) <= cap:
+    if total <= cap:
       ctx.probe("space_enumerated_exhaustively")
     ctx.fault("enumeration_walk")
   elif k == "NEXT_BLOCK":
@@ -768,7 +805,8 @@ def _sanitize(limit, layers):
   linear activation draws from the 'linear' section, so activation-section
   lists are replaced by an integer limit where such a layer is matched."""
   for key, entry in limit.items():
-    if not isinstance(entry[-1], list):
+    if key == "default" or not isinstance(entry, list) or not entry or \
+        not isinstance(entry[-1], list):
       continue
     for l in layers:
       if l["t"] == "Activation" and l.get("act") == "linear" and (
@@ -804,6 +842,21 @@ def generate(rng):
       limit[c] = fix_entry(gen_lim_entry(rng, c))
   if not limit:
     limit["Dense"] = [4, 4, 4]
+  if rng.chance(0.45):
+    form = rng.wpick([("int", 2), ("list3", 1), ("list4", 2)])
+    if form == "int":
+      limit["default"] = rng.pick([2, 4, 6, 8])
+    elif form == "list3":
+      limit["default"] = [rng.pick([2, 4, 8]), rng.pick([4, 8]),
+                          rng.pick([3, 4, 8])]
+    else:
+      limit["default"] = [rng.pick([2, 4, 8]), rng.pick([4, 8]),
+                          rng.pick([4, 8]), rng.pick([3, 4, 6])]
+    for c in list(limit):
+      if c in REGISTERED and c not in SEQUENCE and rng.chance(0.6):
+        limit[c] = limit[c][:rng.pick([1, 2])]
+      elif c in SEQUENCE and form == "list4" and rng.chance(0.5):
+        limit[c] = limit[c][:rng.pick([1, 2, 3])]
   _sanitize(limit, layers)
   world = {"input": kind, "layers": layers, "limit": limit,
            "wseed": rng.subseed(),
@@ -834,7 +887,7 @@ def generate(rng):
       _sanitize(l2, layers)
       world["limit2"] = l2
   ops = []
-  for _ in range(rng.randrange(2, 7)):
+  for _ in range(rng.randrange(2, 6)):
     k = rng.wpick([("TRIAL", 6), ("DUPLICATE", 1.5), ("REORDER", 1),
                    ("CRASH", 2), ("NEXT_BLOCK", 0.8 if "limit2" in world
                                   else 0), ("ALL", 0.5)])
@@ -851,7 +904,7 @@ def generate(rng):
       else:
         op["at"] = rng.randrange(40)
     if k == "ALL":
-      op["cap"] = 8
+      op["cap"] = 6
     ops.append(op)
   return {"seed": rng.subseed(), "world": world, "ops": ops}
 
@@ -875,12 +928,12 @@ def directed():
          {"t": "DepthwiseConv2D", "name": "cv1", "kernel": 2},
          {"t": "Flatten", "name": "flat"},
          {"t": "Dense", "name": "fc0", "units": 2, "act": None}]
-  standard = [{"k": "ALL", "aseed": 1, "cap": 10},
+  standard = [{"k": "ALL", "aseed": 1, "cap": 6},
               {"k": "DUPLICATE", "i": 0},
               {"k": "CRASH", "aseed": 2, "at": 1},
               {"k": "TRIAL", "aseed": 3},
               {"k": "CRASH", "aseed": 4, "where": "after_quantize"},
-              {"k": "TRIAL", "aseed": 5}, {"k": "REORDER"}]
+              {"k": "TRIAL", "aseed": 5}]
   worlds = [
       ("mlp-class-limits", "vec", mlp, {"Dense": [4, 4, 4],
                                         "Activation": [4]}, {}),
@@ -899,6 +952,13 @@ def directed():
        {"tune_filters": "layer", "tune_filters_exceptions": "^fc2$"}),
       ("mlp-tune-block", "vec", mlp, {"Dense": [4, 4, 4]},
        {"tune_filters": "block", "tune_filters_exceptions": "^fc2$"}),
+      ("mlp-default-int-short-lists", "vec", mlp, {"Dense": [4],
+                                                   "Activation": [4],
+                                                   "default": 6}, {}),
+      ("mlp-default-4list-short-lists", "vec", mlp, {
+          "Dense": [4, 4], "Activation": [4], "default": [8, 8, 8, 3]}, {}),
+      ("lstm-default-4list", "seq", seq, {"LSTM": [4, 4], "Dense": [4],
+                                          "default": [8, 4, 4, 8]}, {}),
       ("cnn", "img", cnn, {"Conv2D": [4, 4, 4], "Dense": [8, 8, 8],
                            "Activation": [4]}, {}),
       ("cnn-partial", "img", cnn, {"Conv2D": [2, 4, 4]}, {}),
